@@ -312,7 +312,9 @@ func npCase(in npIn, tags ...string) caseRec {
 // unknown-field groups (wire types 3/4): protobuf-go skips a well-formed group — also one that uses the number of a
 // known non-group field — and rejects unterminated / mismatched / stray ones
 func groupBytes(r *rand.Rand) []byte {
-	tag := func(field, wt int) []byte { return protowire.AppendTag(nil, protowire.Number(field), protowire.Type(wt)) }
+	tag := func(field, wt int) []byte {
+		return protowire.AppendTag(nil, protowire.Number(field), protowire.Type(wt))
+	}
 	f := []int{99, 1, 2, 5, 1000, 3}[r.Intn(6)]
 	inner := [][]byte{nil, {0x08, 0x01}, append(tag(7, 2), 0x02, 0xaa, 0xbb), append(append(tag(8, 3), 0x10, 0x05), tag(8, 4)...),
 		append(tag(9, 1), 1, 2, 3, 4, 5, 6, 7, 8), append(tag(9, 5), 1, 2, 3, 4)}[r.Intn(6)]
